@@ -142,7 +142,7 @@ def run(ctx):
     cases, meta = [], []
     for spec, hist, targets in corpus_cases():
         run_one(ctx, spec, hist, targets, cases, meta, 'corpus')
-    nrand = 1500 if ctx.tier == 'quick' else 20000
+    nrand = 1000 if ctx.tier == 'quick' else 20000
     for _ in range(nrand):
         spec = G.gen_spec(rng)
         hist = G.gen_history(rng, spec, rng.randint(0, 7), populate=rng.random() < 0.95)
@@ -162,7 +162,7 @@ def run(ctx):
                 'every host and three plans (policy itself, through HostFilterPolicy, through DefaultLoadBalancingPolicy with/without target) are '
                 'observed. Non-trivial = distinct history in which some plan has at least 2 hosts.' % (len(EXH_SPECS), L, nex))
     try:
-        bad = ctx.coq_filter(['LBP'], '(fun b : bool => b)', cases, shard=250)
+        bad = ctx.coq_filter(['LBP'], '(fun b : bool => b)', cases, shard=500)
         for i in bad[:10]:
             spec, hist, targets = meta[i]
             ctx.disagreement('model-vs-impl.%s' % spec['kind'], 'Model/LBP.v and cassandra/policies.py differ on spec %r history %r' % (spec, hist),
